@@ -67,6 +67,11 @@ def build(case):
     return m
 
 
+def twin_ok(case):
+    # also run under the second label decoding (common.twin_labels); Matrix kinds index by int
+    return C.no_matrix(case)
+
+
 def run_impl(case):
     import qubovert as qv
     obj = build(case)
